@@ -22,6 +22,9 @@ Oracle  : (purity)   every result equals, bitwise, what a TWIN transform - const
           BooleanImage.constrain_to_pointcloud (roots "M"): the mask equals the per-pixel reference for every batch size.
 Roots   : H = histories (depth 3 / 4), B = every batch size 1..9 on 7 points (depth 2), O = every subset pattern of
           outside positions on 5 points x batch sizes None,1..7 (depth 2), M = BooleanImage x pointcloud letters.
+Known   : D26 (open) - a TransformChain with a piecewise-affine member, applied with batch_size, raises the error of
+          the first failing batch only.  Recognised by `footprint_chain_first_batch` (mask == reference mask of the
+          first batch holding an outside point, chain receiver, batched call); any other wrong mask is a violation.
 A state is identified with its history (the canonical key contains every apply event together with the pool values
 at that moment): the memo of a caching transform is a function of exactly that, so nothing with a different hidden
 memo is ever merged.
@@ -384,7 +387,8 @@ H_OPS = (
     + [("poke", "x", "ulp"), ("poke", "x", "close"), ("poke", "x", "row"), ("poke", "y", "row")]
     + [("scribble",)]
 )
-# last level of the thorough tier: edits are pointless as a last step (nothing is applied after them)
+# last level of a depth-3 (quick) / depth-4 (thorough, memo letters) history: only calls - an edit or a scribble with
+# nothing applied after it decides nothing
 H_OPS_LAST = [o for o in H_OPS if o[0] in ("apply", "applyb", "shape")]
 B_OPS = [("applyb", s, k) for s in ("x", "y") for k in range(1, 10)] + [("shape", k) for k in range(1, 10)] + [("apply", "x"), ("applyb", "s", 2), ("applyb", "s", 5), ("applyb", "s", 6)]
 O_KS = (None, 1, 2, 3, 4, 5, 6, 7)
@@ -393,15 +397,19 @@ O_OPS_SMALL = [("pat", p, k) for p in (0, 31, 1, 16, 10) for k in (None, 2, 3)] 
 
 
 def footprint_chain_first_batch(L, k, mask_ref, m):
-    """Footprint of the chain-batching defect (generic Transform._apply_batched lets the error of the first
-    failing batch escape): the letter is a TransformChain, the call was batched, and the mask is exactly the
-    reference mask of the first batch that contains an outside point.  Anything else is not this defect."""
-    if not L.chain or k is None or not isinstance(m, np.ndarray) or m.dtype != bool:
+    """Footprint of the open finding D26 (the generic Transform._apply_batched lets the error of the first failing
+    batch escape): the receiver is a TransformChain (not itself a piecewise-affine transform) with a piecewise-affine
+    member, the call was batched, an error was raised, and its mask is exactly the reference mask restricted to
+    the first batch that contains an outside point (so its length is that batch's size).  Anything else - another
+    length, another content, a PWA receiver - is not this defect and stays an untagged failure."""
+    if not (L.chain and any(p[0] == "pwa" for p in L.prims)) or k is None:
+        return None
+    if not isinstance(m, np.ndarray) or m.dtype != bool or m.ndim != 1:
         return None
     for lo in range(0, mask_ref.shape[0], k):
         part = mask_ref[lo : lo + k]
         if part.any():
-            return "D25" if (m.shape == part.shape and np.array_equal(m, part)) else None
+            return "D26" if (m.shape == part.shape and np.array_equal(m, part)) else None
     return None
 
 
@@ -636,6 +644,8 @@ class C09(Check):
             got = ("ok", T.apply(arg, **kw))
         except TriangleContainmentError as exc:
             got = ("raise", exc.points_outside_source_domain)
+        except Exception as exc:  # nothing else is a legitimate outcome of apply on these inputs: reported, never hidden
+            got = ("error", exc)
         # ---- bookkeeping that later ops use
         if got[0] == "ok":
             if as_shape:
@@ -653,6 +663,13 @@ class C09(Check):
             st["applied"][slot] = vals.copy()
         if not verify:
             return fails
+        if got[0] == "error":
+            import traceback
+
+            exc = got[1]
+            self.note("%s:unexpected-exception" % kind)
+            tb = "".join(traceback.format_exception(type(exc), exc, exc.__traceback__))[-900:]
+            return [Failure(where, "unexpected-exception", "%s after %s: %s: %s\n%s" % (op, self._hist(st), type(exc).__name__, exc, tb))]
 
         # ---- oracle
         e = self.expect(L, vals, k)
@@ -867,7 +884,9 @@ class C09(Check):
             "numpy reference tolerance %g (relative to max |value|); batched-vs-unbatched tolerance %g; twin comparison is bitwise" % (REF_TOL, BATCH_TOL),
             "thin-plate-spline letters: 6 landmarks with minimum pairwise distance %g and triangle area %g (well-conditioned system)" % (LT.MIN_DIST, LT.MIN_AREA),
             "batch sizes 1..9 on 7 points, None and 1..7 on 5 points with all 32 outside patterns; batch_size 0 / negative are outside the property",
-            "history depth %d; the last level of the deepest tier applies only (an edit with nothing after it decides nothing)" % self.depth(),
+            "history depth %d (thorough: 4 for the %d letters that memoise or share state, 3 with the full alphabet on every level for the stateless homogeneous family); the last level of the deepest histories holds calls only (an edit with nothing after it decides nothing)" % (self.depth(), len(MEMO_LETTERS)),
+            "a twin shares process-global state with the transform under test; the numpy reference (tolerance above) is what decides against module-level scratch state",
+            "a state whose step hit the open finding D26 (chain letter, batched call on the mixed array w) is not expanded further",
         ]
 
 
